@@ -123,6 +123,13 @@ add('C13', 'fault_enumeration', 'fault injection into simulated sessions at gene
     'position under a generated schedule; the output file must parse and hold exactly the finished boards.',
     SIM_NOTE, '5/C13')
 
+add('C20', 'fault_enumeration', 'generated admission attempt lists (valid + 3 kinds of invalid) in sequential and concurrent arrival under generated schedules; seat-table model in accept order',
+    'sim-sessions',
+    'Every kind of inadmissible request is injected at generated positions of the arrival order, in every letter case, '
+    'sequentially and concurrently; verdicts are decided by a seat-table model driven by the order in which the '
+    'server accepted the connections; seated clients\' streams must be undisturbed and the first board must start.',
+    SIM_NOTE, '5/C20')
+
 NOT_APPLICABLE = []
 
 ENGINES = [
